@@ -19,6 +19,11 @@ func (c *Core) SendBundle(bndl *bpv7.Bundle) {
 	if c.signPriv != nil && bndl.IsAdministrativeRecord() {
 		c.sendBundleAttachSignature(bndl)
 	}
+
+	// The sequence number must be assigned before the bundle is filed in the store: the store's key is the bundle's ID,
+	// and a second bundle of the same millisecond would otherwise be taken for the first one.
+	c.idKeeper.update(bndl)
+
 	bp := NewBundleDescriptorFromBundle(*bndl, c.store)
 
 	c.routing.NotifyNewBundle(bp)
@@ -51,8 +56,6 @@ func (c *Core) transmit(bp BundleDescriptor) {
 	log.WithFields(log.Fields{
 		"bundle": bp.ID(),
 	}).Info("Transmission of bundle requested")
-
-	c.idKeeper.update(bp.MustBundle())
 
 	bp.AddConstraint(DispatchPending)
 	_ = bp.Sync()
